@@ -90,7 +90,7 @@ func c14File(feature int, withService bool) (*protogen.File, string) {
 		n1, j1 := c14Name("f1")
 		prefix := "p_"
 		if !c14Concrete {
-			prefix = verif.StringIn("prefix", 2, "a-z_")
+			prefix = verif.StringIn("prefix", verif.L(2), "a-z_")
 		}
 		f := verif.AddField(m, &verif.FieldDesc{FName: n1, FJSON: j1, FKind: protoreflect.MessageKind, FNumber: 1, FMsg: w.child.Desc,
 			FOpts: c14Opts(func(o *descriptorpb.FieldOptions) {
@@ -125,7 +125,7 @@ func c14File(feature int, withService bool) (*protogen.File, string) {
 		verif.AddField(image, &verif.FieldDesc{FName: "url", FJSON: "url", FKind: protoreflect.StringKind, FNumber: 1, FOpts: c14Opts(nil)}, "Url")
 		customVal := "txt"
 		if !c14Concrete {
-			customVal = verif.StringIn("v1.oneofValue", 3, "a-z")
+			customVal = verif.StringIn("v1.oneofValue", verif.L(3), "a-z")
 		}
 		v1 := verif.AddField(m, &verif.FieldDesc{FName: n1, FJSON: j1, FKind: protoreflect.MessageKind, FNumber: 1, FMsg: text.Desc, FOneof: oo.Desc,
 			FOpts: c14Opts(func(o *descriptorpb.FieldOptions) {
